@@ -507,7 +507,7 @@ theorem getByTime_go_loaded (ts : Int) (n : Nat) :
         | exact hl1.trans (withIndex_some_loaded l1 hl1.inv (by assumption))
 
 /-- `GetByTime` only loads indexes. -/
-theorem getByTime_loaded (l : Log) (h : Inv l) (ts : Int) : Loaded l (l.getByTime ts).1 := by
+theorem getByTime_loaded' (l : Log) (h : Inv l) (ts : Int) : Loaded l (l.getByTime ts).1 := by
   unfold Log.getByTime
   split
   · exact Loaded.refl h
@@ -765,7 +765,7 @@ theorem findByAge_res (l : Log) (h : Inv l) (before : Int) :
       ∃ P R, P ++ R = (abs l).live ∧
         offs = Spec.offsOf (P.takeWhile (fun m => decide (m.time ≤ before))) := by
   rw [findByAge_unfold]
-  have h1 := getByTime_loaded l h before
+  have h1 := getByTime_loaded' l h before
   have h2 := ageBound_loaded _ h1.inv (l.getByTime before).2
   obtain ⟨h3, h4⟩ := ageTail_spec before (ageBound (l.getByTime before).1 (l.getByTime before).2) h2.inv
   refine ⟨(h1.trans h2).trans h3, ?_⟩
@@ -885,7 +885,7 @@ end Klev
 #print axioms Klev.findByOffset_panic
 #print axioms Klev.findUpdates_ok
 #print axioms Klev.findDeletes_ok
-#print axioms Klev.getByTime_loaded
+#print axioms Klev.getByTime_loaded'
 #print axioms Klev.findByAge_prefix
 #print axioms Klev.findByAge_ok_of_ok
 #print axioms Klev.consumeOK_allows_lost_cursor
